@@ -72,6 +72,12 @@ func h02Minus(a, b []string) []string {
 // (sorted), the effective required sets (non-empty after exclusion) and the
 // excluded characters of a recipe.
 func h02Ref(r CharRecipe) (alpha []string, reqs [][]string, excluded []string) {
+	alpha, reqs, excluded = h02Ref0(r)
+	sort.Strings(alpha)
+	return
+}
+
+func h02Ref0(r CharRecipe) (alpha []string, reqs [][]string, excluded []string) {
 	var allowed []string
 	allowed = h02Add(allowed, h02Chars(r.AllowChars)...)
 	excluded = h02Add(excluded, h02Chars(r.ExcludeChars)...)
@@ -100,7 +106,6 @@ func h02Ref(r CharRecipe) (alpha []string, reqs [][]string, excluded []string) {
 			reqs = append(reqs, q)
 		}
 	}
-	sort.Strings(alpha)
 	return
 }
 
